@@ -71,10 +71,12 @@ D5 = "a list/enum/term item that starts right after '[' inside a context where t
 kf("K6-C08", "D5 list-after-bracket-unbreakable", "C08", r"^C08\|tokens-moved-between-markup-nodes\|", "*#[- foo\n\n  bar\n]*", D5, "tokens-moved-between-markup-nodes")
 kf("K6-C01", "D5 list-after-bracket-unbreakable", "C01", r"^C01\|tree\|(spine=(strong|mixed|heading|item)/|(.*&)?dev=markup:\w*>(Strong|Emph|Heading|ListItem|EnumItem|TermItem|Markup|ContentBlock)\[[^\]]*(Marker|Hash|LeftBracket|RightBracket|Star|Underscore)[^\]]*\])", "*#[- foo\n\n  bar\n]*", D5, "tree")
 
+kf("K13-C01", "lone marker-like text before ']'", "C01", r"^C01\|tree\|(spine|dev=.*\|at)=\S*/list_nest_empty", "#{\n  [- foo\n    -]\n}", "a lone '-' (or '+', '=') that is plain text because ']' follows it directly, at the start of the last line of a multi-line content block whose last element is a list item: the closing bracket is moved to its own line (the repair of P14) and the token becomes an empty list item", "tree")
+
 # --------------------------------------------------------------------------- K7: parentheses around a literal removed before text (P1)
 P1 = "'#(auto)bar', '#(1)a', '#(none)x': the parentheses around a literal embedded in markup are removed and the literal fuses with the text that follows"
 kf("K7-C08", "P1 paren-removal-fuses-literal", "C08", r"^C08\|text-changed\|(.*&)?dev=markup:\S*>Markup\[RightParen\^Text\]:none", "foo #(auto)bar", P1, "text-changed")
-kf("K7-C01", "P1 paren-removal-fuses-literal", "C01", r"^C01\|tree\|(spine=\w+/hash_tight@0/paren\d?@0/|(.*&)?dev=markup:\S*>Markup\[RightParen\^Text\]:none)", "#(1)foo", P1, "tree")
+kf("K7-C01", "P1 paren-removal-fuses-literal", "C01", r"^C01\|tree\|(spine=\w+/hash_tight@0/paren\d?@0/|(.*&)?dev=markup:\S*>Markup\[RightParen\^Text\]:none)", "foo #(auto)bar", P1, "tree")
 kf("K7-C04", "P1 paren-removal-fuses-literal", "C04", r"^C04\|erroneous-output\|(spine=\w+/hash_tight@0/paren\d?@0/|(.*&)?dev=markup:\S*>Markup\[RightParen\^Text\]:none)", "#(1)foo", P1 + " ('#1foo' is a number with an invalid suffix)", "erroneous-output")
 kf("K7-C10", "P1 paren-removal-fuses-literal", "C10", r"^C10\|literal-changed\|((.*&)?dev=markup:\S*>Markup\[RightParen\^Text\]:none|extra=lit:[\w+]+@\w+/hash_tight@0/paren)", "foo #(auto)bar", P1, "literal-changed")
 
@@ -88,7 +90,7 @@ kf("K8b-C03", "E forced-break-under-suppression", "C03", r"^C03\|not-idempotent\
 kf("K8c-C03", "E / trivia inside a field access chain", "C03", r"^C03\|not-idempotent\|(.*&)?dev=\w+:\w+>FieldAccess\[.*\|at=.*(block2_semi|block2_ml|import\w*|table\w*|grid\w*)", "#a.f({b; c}).\ng(d)", "a line break or comment inside a method chain whose call arguments hold a node that always breaks: " + E, "not-idempotent")
 kf("K8d-C03", "H asymmetric content block edge", "C03", r"^C03\|not-idempotent\|(.*&)?dev=markup:\w+>ContentBlock\[(LeftBracket\^\w+|\w+\^RightBracket)\]", "#[ $ x $]", "a content block with a blank at only one of its inner edges whose content breaks at a narrow width: the first pass keeps the blank as a space because the source is on one line, the second pass sees a multi-line source and turns it into a line break", "not-idempotent")
 kf("K8d2-C03", "H asymmetric content block edge (heading)", "C03", r"^C03\|not-idempotent\|extra=prose:block_heading_sp:", "#[= #g(a, b) ]", "a heading inside a content block, followed by a blank before ']', whose content breaks at a narrow width: the first pass keeps the blank as a space, the second pass sees a multi-line source and turns it into a line break", "not-idempotent")
-kf("K8e-C03", "P12 heading with line comment", "C03", r"^C03\|not-idempotent\|(.*&)?dev=markup:\w+>Heading\[HeadingMarker\^\w+\]:(lc|lc_sp|lc_lc|nl_lc|off_lc|off_reason)", "=//c1\nfoo", "a line comment directly after a heading marker gains a space on the second pass", "not-idempotent")
+kf("K8e-C03", "P12 heading with line comment", "C03", r"^C03\|not-idempotent\|(.*&)?dev=markup:[\w-]*>(Heading|Markup)\[HeadingMarker\^\w+\]:(lc|lc_sp|lc_lc|nl_lc|off_lc|off_reason)", "=//c1\nfoo", "a line comment directly after a heading marker gains a space on the second pass", "not-idempotent")
 kf("K8f-C03", "adjacent comments after a chain operator", "C03", r"^C03\|not-idempotent\|(.*&)?dev=\w+:\w+>(Binary\[\w+\^\w+\]|FieldAccess\[Dot\^Ident\]):bc_bc", "#let v = a + b +/*c1*//*c2*/c", "two adjacent block comments after an operator of a broken binary chain (or after the dot of a broken method chain) are printed tight by the first pass and spaced by the second", "not-idempotent")
 kf("K8h-C03", "E / comment between call parts", "C03", r"^C03\|not-idempotent\|(.*&)?dev=markup:\w+>(FuncCall\[Ident\^LeftParen\]|Args\[RightParen\^LeftBracket\]):(bc|bc_sp|bc_ml|bc_star|bc_bc|sp|off_bc|off_tight|off_mid|bc_ws_line|bc_blank|bc_tab|bc_uni).*\|at=.*(block2_semi|block2_ml|import\w*|table\w*|grid\w*)", "#a({b; c})/*c1*/[foo]", "a comment (or blank) between the parts of a call whose argument holds a node that always breaks: " + E, "not-idempotent")
 kf("K8i-C03", "comment before ')' of a parenthesised import list", "C03", r"^C03\|not-idempotent\|(.*&)?dev=code:\w+>ModuleImport\[Ident\^RightParen\]:(bc|bc_sp|bc_ml|bc_star|bc_bc|off_bc|off_tight|off_mid|bc_ws_line|bc_blank|bc_tab|bc_uni)", "#{import \"m.typ\": (b, a/*c1*/)}", "a block comment before the closing parenthesis of an import list inside a code block: the first pass drops the parentheses and keeps the block on one line, the second pass breaks the block", "not-idempotent")
@@ -133,6 +135,9 @@ FIXED = [
   fixed("C04", "keep the space between a trailing backslash of a list item or heading and the closing bracket", "'#[- a \\ ]' was printed as '#[- a \\]': the line break became an escaped bracket, the output no longer parsed (also C01 C08)"),
   fixed("C13", "range formatting indents a list item relative to the column of its marker", "an item that does not start its line ('#[- a', '- - b', an indented first line) was re-indented relative to the line's leading blanks: continuation lines and children left the item"),
   fixed("C13", "range formatting keeps the result apart from a word it touches", "'(r) => a' selected out of '#if(r) => a [..]' came back as 'r => a' and fused with the keyword: '#ifr => a'"),
+  fixed("C05", "do not reserve memory for as many cells as the 'columns' argument of a table says", "'#table(columns: 9223372036854775807, [a])' panicked with a capacity overflow (reported as a side remark by a seeding sub-agent; the numeric-limits family now finds it)"),
+  fixed("C04", "break the line after a line comment that follows the colon of an import", "'#(import \"a.typ\": // c<newline>(a, b))': the comment swallowed the items and the closing parenthesis (also C06; side remark of a sub-agent; production paren_stmt now reaches it)"),
+  fixed("C01", "keep the colon of a term item with an empty term apart from the marker", "'/ : desc' was printed as '/: desc', plain text (also C08; side remark of a sub-agent; degenerate block productions now reach it)"),
   fixed("C01", "do not break a content block that holds nothing but block comments", "'a#[/*c*/]b' was printed with the comment on its own line: empty content became a blank (also C02 C08)"),
 ]
 
